@@ -74,7 +74,7 @@ class Model:
 
     def forget(self, m):
         self.known.pop(m, None)
-        self.spec[m] = [0.0, 0.0]      # documented by the implementation's unset: bounds reset to 0
+        self.spec.pop(m, None)         # the property does not say what bounds an un-set coalition carries: unspecified
 
 
 def same(a, b) -> bool:
@@ -233,7 +233,7 @@ def run_sequence(ctx, case) -> None:
                 vals = [rand_value(rng) for _ in subset]
                 g.set_known_values(vals, None if op == "bulk_reset_all" else [Coalition(x) for x in subset])
                 model.known = {0: 0.0}
-                model.spec = {x: [0.0, 0.0] for x in range(1, size)}
+                model.spec = {}        # bounds of the dropped coalitions are unspecified by the property
                 for x, v in zip(subset, vals):
                     model.known[x] = v
                     model.spec.pop(x, None)
